@@ -90,6 +90,53 @@ def diff_task(task):
     return out
 
 
+def crowd_world(seed, i):
+    """a hundred and more malformed neighbours of ONE kind (directories named *.trashinfo, dangling links, empty files)
+    around a few well-formed entries, run with a small allowance of open files: whatever each neighbour costs, it must be
+    given back before the next one"""
+    from ..model import W
+    from ..sandbox import MODEL_ROOT as R
+    rng = task_rng("C19crowd", seed, i)
+    w = W()
+    home = w.dir(R + b"/home/u")
+    t = home + b"/.local/share/Trash"
+    w.dir(t, 0o700)
+    w.dir(t + b"/files", 0o700)
+    w.dir(t + b"/info", 0o700)
+    kind = ["dir", "dangling", "empty", "binary"][i % 4]
+    for j in range(130):
+        p = t + b"/info/crowd%03d.trashinfo" % j
+        if kind == "dir":
+            w.dir(p)
+        elif kind == "dangling":
+            w.link(p, b"nowhere")
+        elif kind == "empty":
+            w.file(p, b"")
+        else:
+            w.file(p, b"\xff\xfe\x00 junk")
+    entries = []
+    for j in range(5):
+        nm = b"zz-good%d" % j                     # listed after the crowd
+        loc = home + b"/docs/" + nm
+        w.file(t + b"/info/" + nm + b".trashinfo", b"[Trash Info]\nPath=" + loc + b"\nDeletionDate=2020-01-0%dT00:00:00\n" % (j + 1), 0o600)
+        w.file(t + b"/files/" + nm, b"good %d" % j)
+        entries.append({"tdir": t, "name": nm, "loc": loc, "rec": loc, "date": "2020-01-0%dT00:00:00" % (j + 1), "base": None})
+    cmd = ["list", "rm", "empty", "restore"][(i // 4) % 4]
+    opts, args, stdin, env = {}, [], None, {"HOME": home}
+    if cmd == "rm":
+        args = [b"zz-good*"]
+    elif cmd == "empty":
+        env["TRASH_DATE"] = b"2024-03-02T12:00:00"
+        opts = {"now": [2024, 3, 2, 12, 0, 0], "days": 30}
+    elif cmd == "restore":
+        opts = {"path": b"/", "sort": "date"}
+        stdin = b"0\n"
+    world = w.world(env=env, uid=1000, cwd=home, cmd=cmd, opts=opts, args=args, stdin=stdin,
+                    meta={"entries": entries, "tdirs": [(t, None)], "profile": "crowd", "payload_kinds": ["file"], "sentinels": []})
+    world["argv"] = cmd_argv(world)
+    return world
+
+
 def run(tier, seed):
     ck = Check("C19", tier, seed)
     info = audit("C19")
@@ -99,6 +146,14 @@ def run(tier, seed):
             r["bad"].append({"oracle": "no-traceback", "verdict": [t for t in r["tags"] if t.startswith("uncaught:")][0],
                              "sig": {"oracle": "no-traceback", "cmd": r["summary"]["cmd"]}})
     absorb(ck, results, CFG)
+    crowd_cfg = dict(CFG, tweak=None, plan={"nofile": 64})
+    crowd = run_tasks(eval_task, [{"pid": "C19", "seed": seed, "i": i, "cfg": crowd_cfg, "world": crowd_world(seed, i)}
+                                  for i in range(16 if tier == "quick" else 64)])
+    for r in crowd:
+        if "machinery" not in r and any(t.startswith("uncaught:") for t in r["tags"]):
+            r["bad"].append({"oracle": "no-traceback", "verdict": [t for t in r["tags"] if t.startswith("uncaught:")][0],
+                             "sig": {"oracle": "no-traceback", "cmd": r["summary"]["cmd"]}})
+    absorb(ck, crowd, crowd_cfg)
     diffs = run_tasks(diff_task, [{"seed": seed, "i": i} for i in range(160 if tier == "quick" else 2500)])
     for k, r in enumerate(diffs):
         if "machinery" in r:
